@@ -4,6 +4,9 @@
 import SymfcModel.Model.Tables
 import SymfcModel.Model.Inst
 import SymfcModel.Lemmas.PermSound
+import SymfcModel.Lemmas.OrbitClosed
+import SymfcModel.Lemmas.Col0
+import SymfcModel.Lemmas.Order3
 namespace Symfc.C01
 open Symfc
 
@@ -61,5 +64,98 @@ theorem o4_pointer_array_independent_of_batching (c : Cell) (cut : Option Cutoff
   have hk : Gen.repKindO4 = RepKind.rowMin := by decide
   rw [hk] at h1 h2
   exact permDecompr_rowMin_batch_indep h1 h2 hoc
+
+/-- C01 lifting (every order 2, 3, 4; every well-formed supercell: any number n_lp ≥ 1 of lattice points, any atom
+    order; with or without cutoff): two rows written by the permutation stage that share an element have exactly the
+    same elements, all elements are in range, and every row is closed under ALL index permutations of its entry
+    tuples (a row holds a whole S_n × T orbit of class-space elements). -/
+theorem rows_are_whole_orbits (c : Cell) (hwf : c.wf = true) (n : Nat) (hn : n = 2 ∨ n = 3 ∨ n = 4)
+    (cut : Option CutoffIn) (hcut : ∀ x, cut = some x → x.N = c.N) :
+    OrbitClosed (allStageRows Gen.cutoffOps c n (stagesFor n) cut) ∧
+    (∀ r ∈ allStageRows Gen.cutoffOps c n (stagesFor n) cut, ∀ e ∈ r, e < c.N ^ n * 3 ^ n / c.nlp) ∧
+    (∀ r ∈ allStageRows Gen.cutoffOps c n (stagesFor n) cut, ∀ t : List Nat, t.length = n → (∀ e ∈ t, e < 3 * c.N) →
+      elemIdx c.N (c.atomicDecompr n) t ∈ r → ∀ σ ∈ permsOf (List.range n),
+        elemIdx c.N (c.atomicDecompr n) (σ.map (fun i => t.getD i 0)) ∈ r) :=
+  ⟨OC.allStageRows_orbitClosed c hwf hn cut hcut, OC.allStageRows_lt c hwf hn cut hcut,
+   fun r hr t hlen hlt hmem σ hσ => OC.allStageRows_perm_closed c hwf hn cut hcut r hr t hlen hlt hmem σ hσ⟩
+
+/-- C01, ORDER 4, full statement on the model (no residual hypothesis): for every well-formed supercell, every cutoff
+    and every batch split, the connected components of the pointer graph are exactly the rows, and each component is
+    closed under every index permutation σ ∈ S₄ — so every column of `c_pt` (normalised indicator of a component) is
+    invariant under all index permutations. -/
+theorem C01_order4 (c : Cell) (hwf : c.wf = true) (cut : Option CutoffIn) (hcut : ∀ x, cut = some x → x.N = c.N)
+    (nBatch : String → Nat) (ptr' : Array Int)
+    (h : permDecompr Gen.cutoffOps c 4 Gen.repKindO4 Gen.stagesO4 cut nBatch = some ptr') :
+    (∀ a b, SameComp ptr' a b ↔ ∃ r ∈ allStageRows Gen.cutoffOps c 4 Gen.stagesO4 cut, a ∈ r ∧ b ∈ r) ∧
+    (∀ r ∈ allStageRows Gen.cutoffOps c 4 Gen.stagesO4 cut, ∀ t : List Nat, t.length = 4 → (∀ e ∈ t, e < 3 * c.N) →
+      elemIdx c.N (c.atomicDecompr 4) t ∈ r → ∀ σ ∈ permsOf (List.range 4),
+        SameComp ptr' (elemIdx c.N (c.atomicDecompr 4) t)
+          (elemIdx c.N (c.atomicDecompr 4) (σ.map (fun i => t.getD i 0)))) :=
+  ⟨fun a b => OC.o4_components_are_rows c hwf cut hcut nBatch ptr' h a b,
+   fun r hr t hlen hlt hmem σ hσ => OC.o4_components_perm_closed c hwf cut hcut nBatch ptr' h r hr t hlen hlt hmem σ hσ⟩
+
+/-- C01, ORDER 2, full statement on the model: with first-column representatives and last-write-wins, for every
+    well-formed supercell, every cutoff, every row order, the components are exactly the rows {(ia,jb), (jb,ia)}
+    (resp. {(ia,ia)}), hence closed under the index transposition. -/
+theorem C01_order2 (c : Cell) (hwf : c.wf = true) (cut : Option CutoffIn) (hcut : ∀ x, cut = some x → x.N = c.N)
+    (nBatch : String → Nat) (ptr' : Array Int)
+    (h : permDecompr Gen.cutoffOps c 2 Gen.repKindO2 Gen.stagesO2 cut nBatch = some ptr') (a b : Nat) :
+    SameComp ptr' a b ↔ ∃ r ∈ allStageRows Gen.cutoffOps c 2 Gen.stagesO2 cut, a ∈ r ∧ b ∈ r := by
+  have hk : Gen.repKindO2 = RepKind.col0 := by decide
+  rw [hk] at h
+  have hs : stagesFor 2 = Gen.stagesO2 := rfl
+  have hoc := OC.allStageRows_orbitClosed c hwf (n := 2) (Or.inl rfl) cut hcut
+  have hb := OC.allStageRows_lt c hwf (n := 2) (Or.inl rfl) cut hcut
+  rw [hs] at hoc hb
+  refine permDecompr_col0_le_two_sameComp_iff h ?_ hoc hb a b
+  intro r hr
+  -- every row of the order-2 stages has 1 or 2 entries
+  unfold allStageRows at hr
+  rw [List.mem_flatMap] at hr
+  obtain ⟨st, hst, hr⟩ := hr
+  unfold stageRows at hr
+  rw [List.mem_flatMap] at hr
+  obtain ⟨comb, _, hr⟩ := hr
+  have hl := stageRowsOf_length hr
+  have hall : Gen.stagesO2.all (fun st => st.perms.length / st.nPermsGroup == 1 || st.perms.length / st.nPermsGroup == 2) = true := by
+    decide
+  have := List.all_eq_true.mp hall st hst
+  rw [hl]
+  simpa using this
+
+/-- C01, ORDER 3, full statement on the model (the fragile mechanism: first-column representatives, last write wins,
+    combination batches): for every well-formed supercell, every cutoff, EVERY batch split of every stage, the
+    components of the pointer graph are exactly the rows (whole S₃ × T orbits). -/
+theorem C01_order3 (c : Cell) (hwf : c.wf = true) (cut : Option CutoffIn) (hcut : ∀ x, cut = some x → x.N = c.N)
+    (nBatch : String → Nat) (ptr' : Array Int)
+    (h : permDecompr Gen.cutoffOps c 3 Gen.repKindO3 Gen.stagesO3 cut nBatch = some ptr') (a b : Nat) :
+    SameComp ptr' a b ↔ ∃ r ∈ allStageRows Gen.cutoffOps c 3 Gen.stagesO3 cut, a ∈ r ∧ b ∈ r :=
+  O3.C01_order3 c hwf cut hcut nBatch ptr' h a b
+
+/-- C01 / C11 (order 3): the partition into components is the same for every two batch splits (the pointer values
+    themselves may differ — only the partition, hence `c_pt`, is invariant). -/
+theorem order3_partition_independent_of_batching (c : Cell) (hwf : c.wf = true) (cut : Option CutoffIn)
+    (hcut : ∀ x, cut = some x → x.N = c.N) (nBatch nBatch' : String → Nat) (p1 p2 : Array Int)
+    (h1 : permDecompr Gen.cutoffOps c 3 Gen.repKindO3 Gen.stagesO3 cut nBatch = some p1)
+    (h2 : permDecompr Gen.cutoffOps c 3 Gen.repKindO3 Gen.stagesO3 cut nBatch' = some p2) (a b : Nat) :
+    SameComp p1 a b ↔ SameComp p2 a b :=
+  (O3.C01_order3 c hwf cut hcut nBatch p1 h1 a b).trans (O3.C01_order3 c hwf cut hcut nBatch' p2 h2 a b).symm
+
+/-- C01, all orders together: every component of the pointer graph is closed under every index permutation.
+    (order n ∈ {2,3,4}, any well-formed cell, any cutoff, any batch split) -/
+theorem C01_components_closed_under_index_permutations (c : Cell) (hwf : c.wf = true) (n : Nat)
+    (hn : n = 2 ∨ n = 3 ∨ n = 4) (cut : Option CutoffIn) (hcut : ∀ x, cut = some x → x.N = c.N)
+    (nBatch : String → Nat) (ptr' : Array Int)
+    (h : permDecompr Gen.cutoffOps c n (repFor n) (stagesFor n) cut nBatch = some ptr')
+    (r : List Nat) (hr : r ∈ allStageRows Gen.cutoffOps c n (stagesFor n) cut)
+    (t : List Nat) (hlen : t.length = n) (hlt : ∀ e ∈ t, e < 3 * c.N)
+    (hmem : elemIdx c.N (c.atomicDecompr n) t ∈ r) (σ : List Nat) (hσ : σ ∈ permsOf (List.range n)) :
+    SameComp ptr' (elemIdx c.N (c.atomicDecompr n) t)
+      (elemIdx c.N (c.atomicDecompr n) (σ.map (fun i => t.getD i 0))) := by
+  have hclosed := OC.allStageRows_perm_closed c hwf hn cut hcut r hr t hlen hlt hmem σ hσ
+  rcases hn with rfl | rfl | rfl
+  · exact (C01_order2 c hwf cut hcut nBatch ptr' h _ _).mpr ⟨r, hr, hmem, hclosed⟩
+  · exact (C01_order3 c hwf cut hcut nBatch ptr' h _ _).mpr ⟨r, hr, hmem, hclosed⟩
+  · exact ((C01_order4 c hwf cut hcut nBatch ptr' h).1 _ _).mpr ⟨r, hr, hmem, hclosed⟩
 
 end Symfc.C01
